@@ -129,6 +129,17 @@ def jwt_forgeries(rs, tok, clients):
         for cls in ("authorization_code", "access_token", "refresh_token"):
             if pay.get("token_class") not in (None, cls):
                 out.append(("resign-HS256-client-secret-iss-client-class", sign(dict(pay, iss=c, token_class=cls), key, "HS256")))
+    # a key a client REGISTERED (registration with jwks imports it into the provider's key jar under the client id)
+    ck = getattr(rs, "_c04_client_key", None)
+    if ck is None:
+        ck = rs._c04_client_key = new_rsa_key(kid="c04-client-key")
+        rs.server.keyjar.import_jwks({"keys": [ck.serialize(private=False)]}, clients[0])
+    out.append(("resign-RS256-registered-client-key-iss-client", sign(dict(pay, iss=clients[0]), ck, "RS256")))
+    out.append(("resign-RS256-registered-client-key-iss-kept", sign(pay, ck, "RS256")))
+    for cls in ("authorization_code", "access_token", "refresh_token"):
+        if pay.get("token_class") not in (None, cls):
+            out.append(("resign-RS256-registered-client-key-iss-client-class-exp",
+                        sign(dict(pay, iss=clients[0], token_class=cls, exp=pay.get("exp", 0) + 10 ** 7), ck, "RS256")))
     fk = new_rsa_key()
     out.append(("resign-RS256-fresh-key", sign(pay, fk, "RS256")))
     out.append(("resign-RS256-fresh-key-iss-client", sign(dict(pay, iss=clients[0]), fk, "RS256")))
@@ -290,14 +301,20 @@ def endpoint_oracle(ctx, rng, variant, n_flows, n_mut):
                         if ok:
                             ctx.violation("mutant-accepted", "%s forgery of a %s resolves at handler %s to session %s"
                                           % (name, real_cls, hk, info.get("sid", "")[:20]), rec)
-                    try:
+                    for hk in ("authorization_code", "access_token", "refresh_token"):      # the way the endpoints call it
+                        try:
+                            si = rs.sm.get_session_info_by_token(m, grant=True, handler_key=hk)
+                            ok = bool(si.get("grant"))
+                        except Exception:
+                            ok = False
+                        if ok:
+                            ctx.violation("mutant-accepted", "%s forgery of a %s resolves to a session at the session manager (handler %s)"
+                                          % (name, real_cls, hk), {"variant": variant, "class": real_cls, "mutation": name})
+                    try:        # observation only: the generic lookup also asks the ID Token handler, which is outside C04's three classes
                         si = rs.sm.get_session_info_by_token(m, grant=True)
-                        ok = bool(si.get("grant"))
+                        ctx.count("forged-generic-lookup:%s:%s" % (name, "resolves" if si.get("grant") else "refused"))
                     except Exception:
-                        ok = False
-                    if ok:
-                        ctx.violation("mutant-accepted", "%s forgery of a %s resolves to a session at the session manager" % (name, real_cls),
-                                      {"variant": variant, "class": real_cls, "mutation": name})
+                        ctx.count("forged-generic-lookup:%s:refused" % name)
                 for name, m in rng.sample(muts, min(n_mut, len(muts))) + forged:
                     for slot in SLOT_OF[real_cls]:
                         verdict, detail = present(rs, slot, m, f["client"])
